@@ -113,6 +113,8 @@ def parse_dtype(spec):
         return VDType("struct", (), [(n, parse_dtype(d)) for n, d in spec])
     if isinstance(spec, tuple) and len(spec) == 2 and isinstance(spec[0], str) and not isinstance(spec[1], str):
         raise OutOfReach("dtype tuple form")
+    if getattr(spec, "name", None) == "object" and type(spec).__name__ == "ClassModel":
+        return VDType("obj")          # dtype=object (the builtin class)
     if not isinstance(spec, str):
         raise OutOfReach(f"dtype specification {spec!r}")
     s = spec.strip()
@@ -209,7 +211,13 @@ class VNd:
         if len(shape) == 0:
             return Seq(1, lambda i: self.get())
         if len(shape) == 1:
+            t = getattr(self, "table", None)
+            if t is not None:
+                return t
             return Seq(shape[0], lambda i: self.get(i))
+        if len(shape) == 2 and conc(shape[1]) is None:
+            from .core import Seq2
+            return Seq2(shape[0], shape[1], lambda i, j: self.get(i, j))
         inner = 1
         for s in shape[1:]:
             inner = inner * s
@@ -248,6 +256,40 @@ class VNd:
         self._scatter = None
         if sc["records"]:
             _finalize_scatter(ctx, self, sc)
+
+
+def _store_by_loop_variables(ctx, a, folds, idxs, g, val):
+    """A[k1, k2] = val  under condition g inside the loops over k1, k2 (each index is the variable of one enclosing
+    summarised loop, every loop variable indexes one axis): afterwards A[j1, j2] is val[k := j] where j lies in the loop
+    ranges and g[k := j] holds, and the old element elsewhere.  Closed form, no quantifier."""
+    from .loops import subst_value
+    ks = [f[0] for f in folds]
+    pos = {}
+    for ax, ix in enumerate(idxs):
+        hit = [n for n, k in enumerate(ks) if isinstance(ix, z3.ExprRef) and ix.eq(k)]
+        if len(hit) != 1 or hit[0] in pos.values():
+            raise OutOfReach("element store whose index is not a loop variable")
+        pos[ax] = hit[0]
+    if sorted(pos.values()) != list(range(len(ks))):
+        raise OutOfReach("element store that does not use every enclosing loop variable (cells written repeatedly)")
+    old = a.get
+    is_obj = a.dt.kind == "obj"
+
+    def get(*j):
+        sub = [(ks[pos[ax]], zint(j[ax])) for ax in range(len(j))]
+
+        def st(t):
+            if isinstance(t, z3.ExprRef):
+                return z3.substitute(t, *sub)
+            if isinstance(t, (int, bool)) or t is None:
+                return t
+            for k, jj in sub:
+                t = subst_value(t, k, jj)
+            return t
+        cond = And(st(zbool(g)) if not isinstance(g, bool) else g, *[rng(st(zint(f[1])), zint(j[ax2]), st(zint(f[2]))) for ax2 in range(len(j)) for f in [folds[pos[ax2]]]])
+        return (_ite_obj if is_obj else (lambda c, x, y: If(c, x, y)))(cond, st(val), old(*j))
+    a.get = get
+    a._scatter["elementwise"] = True
 
 
 def _finalize_scatter(ctx, arr, sc):
@@ -396,12 +438,18 @@ def astype(interp, a, dt):
             raise OutOfReach("astype of a structured array to a plain dtype")
         return a
     if a.dt.kind == dt.kind:
-        return VNd(a.shape, dt, a.get, label=a.label)
+        r = VNd(a.shape, dt, a.get, label=a.label)
+        if getattr(a, "table", None) is not None:
+            r.table = a.table
+        return r
     if a.dt.kind in ("f4", "f8") and dt.kind in ("f4", "f8"):
         return VNd(a.shape, dt, lambda *i: cast_float(VFloat(a.get(*i), a.dt.kind), dt.kind))
     if a.dt.kind in INT_RANGE or a.dt.kind == "i8":
         if dt.kind in INT_RANGE:
-            return VNd(a.shape, dt, a.get)       # value kept; range is an obligation at the field (wraps in numpy)
+            r = VNd(a.shape, dt, a.get)       # value kept; range is an obligation at the field (wraps in numpy)
+            if getattr(a, "table", None) is not None:
+                r.table = a.table
+            return r
         if dt.kind in ("f4", "f8"):
             return VNd(a.shape, dt, lambda *i: int_to_float(a.get(*i), dt.kind))
     raise OutOfReach(f"astype {a.dt.kind} -> {dt.kind}")
@@ -469,6 +517,12 @@ def frombuffer(interp, data, dt):
         a = atoms[0]
         seq = reinterpret(interp, a, dt.kind)
         return VNd(shape, dt, _unflatten(seq, shape))
+    if len(atoms) == 1 and isinstance(atoms[0], AFold) and not dt.subshape:
+        t = _fold_table(interp, atoms[0], dt.kind)
+        if t is not None:
+            r = VNd((t.n,), dt, lambda i: t.get(i))
+            r.table = t
+            return r
     if all(isinstance(a, AField) for a in atoms) and all(conc(a.count) is not None for a in atoms):
         items = []
         for a in atoms:
@@ -499,6 +553,43 @@ def frombuffer(interp, data, dt):
         zero = fzero(dt.kind) if dt.kind in ("f4", "f8") else z3.IntVal(0)
         return VNd(shape, dt, lambda *i: zero)
     raise Unaligned(f"frombuffer({dt!r}) over {atoms!r}: the bytes read do not form one field of the layout")
+
+
+def _fold_table(interp, fold, kind):
+    """a fold of equally long rows of items of one kind (a row: one field, or a fold of single items) read as one array:
+    the rows x cols table (core.Seq2), or None"""
+    from .core import Seq2, _mentions_const
+    ctx = interp.ctx
+    k = z3.Const(f"row!{ctx.uid()}", I)
+    ctx.solver.push()
+    ctx.solver.add(zbool(rng(fold.lo, k, fold.hi)))
+    try:
+        row = [a for a in fold.body(k) if not (isinstance(a, AField) and conc(a.count) == 0)]
+        if len(row) != 1:
+            return None
+        r = row[0]
+        if isinstance(r, AField):
+            cols = r.count
+            cell = lambda i, j: reinterpret(interp, fold.body(z3.simplify(zint(fold.lo) + zint(i)))[0], kind).get(j)
+        elif isinstance(r, AFold):
+            j0 = z3.Const(f"col!{ctx.uid()}", I)
+            inner = r.body(j0)
+            if len(inner) != 1 or not isinstance(inner[0], AField) or conc(inner[0].count) != 1 or ITEMSIZE[inner[0].kind] != ITEMSIZE[kind]:
+                return None
+            cols = z3.simplify(zint(r.hi) - zint(r.lo))
+            rlo = r.lo
+            if isinstance(rlo, z3.ExprRef) and _mentions_const(rlo, k):
+                return None
+            cell = lambda i, j: reinterpret(interp, fold.body(z3.simplify(zint(fold.lo) + zint(i)))[0].body(z3.simplify(zint(rlo) + zint(j)))[0], kind).get(0)
+        else:
+            return None
+        if isinstance(cols, z3.ExprRef) and _mentions_const(cols, k):
+            return None
+        if isinstance(r, AField) and ITEMSIZE[r.kind] != ITEMSIZE[kind]:
+            return None
+    finally:
+        ctx.solver.pop()
+    return Seq2(z3.simplify(zint(fold.hi) - zint(fold.lo)), cols, cell)
 
 
 def reinterpret(interp, a, kind):
@@ -681,7 +772,11 @@ def nd_index(interp, a, idx):
     res = VNd(new_shape, VDType(a.dt.kind), lambda *j: a.get(*mapidx(*j)), label=a.label)
     res.view_of = (a, fixed)
     if not new_shape:
-        return _scalar_of(res)
+        r = _scalar_of(res)
+        if a.dt.kind == "obj":
+            from .loops import resolve_mixed
+            r = resolve_mixed(ctx, r)
+        return r
     return res
 
 
@@ -718,16 +813,27 @@ def nd_setitem(interp, a, idx, v):
         if isinstance(v, VFloat) or is_int(v):
             _fill(interp, a, v)
             return True
-    if a.dt.kind == "obj":
+    full = isinstance(idx, tuple) and len(idx) == len(a.shape) and len(idx) >= 2 and all(is_int(as_index(interp, i)) for i in idx)
+    if a.dt.kind == "obj" or (full and a.fields is None):
         if not isinstance(idx, tuple):
             idx = (idx,)
         old = a.get
         idxs = [as_index(interp, i) for i in idx]
         if len(idxs) != len(a.shape):
             raise OutOfReach("partial store into an object array")
+        for ax, ix in enumerate(idxs):
+            n = a.shape[ax]
+            if not ctx.branch(And(zint(ix) >= -zint(n), zint(ix) < zint(n)), "store-index-in-range"):
+                interp.raise_("IndexError", "index out of bounds")
+            if not ctx.entails(zint(ix) >= 0):
+                raise OutOfReach("negative index in an element store")
+        g = And(*[gg for gg, _ in ctx.guards]) if ctx.guards else True
+        val = v if a.dt.kind == "obj" else _elem_word(interp, a, v, ())
         if a._scatter is not None and len(ctx.folds) > a._scatter["depth"]:
-            raise OutOfReach("object-array store inside a summarised loop")
-        a.get = lambda *j: _ite_obj(And(*[eq(zint(x), zint(y)) for x, y in zip(j, idxs)]), v, old(*j))
+            _store_by_loop_variables(ctx, a, list(ctx.folds[a._scatter["depth"]:]), idxs, g, val)
+            return True
+        ite = _ite_obj if a.dt.kind == "obj" else (lambda c, x, y: If(c, x, y))
+        a.get = lambda *j: ite(And(g, *[eq(zint(x), zint(y)) for x, y in zip(j, idxs)]), val, old(*j))
         return True
     if a.fields is not None:
         for nm, fa in a.fields.items():
@@ -858,11 +964,19 @@ def nd_method(interp, a, name):
             tot = tot * s
         if not ctx.branch(eq(zint(tot), zint(a.size())), "reshape-size"):
             interp.raise_("ValueError", "cannot reshape array")
-        return VNd(shp, a.dt, _unflatten(a.flat(), shp))
+        f = a.flat()
+        from .core import Seq2
+        if isinstance(f, Seq2) and len(shp) == 2 and ctx.entails(And(eq(zint(shp[0]), zint(f.rows)), eq(zint(shp[1]), zint(f.cols)))):
+            return VNd(shp, a.dt, lambda i, j: f.get2(i, j))
+        return VNd(shp, a.dt, _unflatten(f, shp))
 
     def m_flatten(interp, args, kw):
         f = a.flat()
-        return VNd((f.n,), a.dt, lambda i: f.get(i))
+        r = VNd((f.n,), a.dt, lambda i: f.get(i))
+        from .core import Seq2
+        if isinstance(f, Seq2):
+            r.table = f
+        return r
 
     def m_copy(interp, args, kw):
         return VNd(a.shape, a.dt, a.get, dict(a.fields) if a.fields else None)
@@ -912,6 +1026,33 @@ class VInFile:
     def end_fold_commit(self, ctx, k, lo, hi, tok):
         pass
 
+    # predicated `if` bodies (interp._exec_guarded): a read made under a condition g consumes its atoms on the merged path,
+    # which is only right if those atoms are empty whenever g is false
+    def begin_guard(self, ctx, g):
+        self.__dict__.setdefault("guard_snap", []).append([list(fr) for fr in self.s.frames])
+
+    def end_guard(self, interp, g):
+        ctx = interp.ctx
+        snap = self.guard_snap.pop()
+        if len(snap) > len(self.s.frames):
+            raise OutOfReach("a conditional block that leaves a layout sequence")
+        consumed = []
+        for depth, old in enumerate(snap):
+            cur = self.s.frames[depth]
+            nc = len(old) - len(cur)
+            if nc < 0 or any(x is not y for x, y in zip(old[nc:], cur)):
+                raise OutOfReach("a conditional read that does not consume whole fields of the layout")
+            consumed += old[:nc]
+        if consumed:
+            ctx.solver.push()
+            ctx.solver.add(z3.Not(zbool(g)))
+            try:
+                for a in consumed:
+                    if ctx.solver.check(z3.Not(zbool(eq(alen(ctx, a), 0)))) != z3.unsat:
+                        raise Unaligned(f"a read made only under a condition consumes {a!r}, which is not provably empty when the condition is false")
+            finally:
+                ctx.solver.pop()
+
     def descend(self, interp):
         ctx = interp.ctx
         while len(self.entered) < len(ctx.folds):
@@ -929,6 +1070,8 @@ class VInFile:
                 interp.ctx.oblige("decode.loop_count_matches_layout", eq(zint(head.hi) - zint(head.lo), zint(hi) - zint(lo)), kind="B.count")
                 raise Unaligned(f"a loop of {hi}-{lo} iterations reads a layout sequence of {head.hi}-{head.lo} elements")
             self.s.frames.append(list(head.body(z3.simplify(zint(head.lo) + (k - zint(lo))))))
+            for snap in self.__dict__.get("guard_snap", []):
+                snap.append(list(self.s.frames[-1]))     # entered under a condition: the position itself is unconditional
             self.entered.append(len(ctx.folds[:len(self.entered) + 1]))
 
     def leave(self, interp, depth):
@@ -1028,7 +1171,11 @@ def getattr_hook(interp, obj, name):
         if name == "write":
             def write(interp, args, kw):
                 b = to_bytes(args[0])
-                obj.write(b.atoms)
+                if ctx.guards:
+                    from .stream import guard_atoms
+                    obj.write(guard_atoms(And(*[g for g, _ in ctx.guards]), b.atoms))
+                else:
+                    obj.write(b.atoms)
                 return slen(ctx, b.atoms)
             return VBuiltin("BytesIO.write", write)
         if name == "getvalue":
